@@ -173,7 +173,7 @@ Inv == g.phase = "final" =>
        /\ WellFormed(G)
        /\ \A k \in DOMAIN subs : /\ ResultOkWith(G, subs[k], res[k].w, res[k].M, res[k].Y, nd)
                                  /\ AllowedWith(nd, res[k].M, res[k].Y, Range(res[k].w.reachable))
-                                 /\ (CheckSplit => /\ Traverse(MInit, G, subs[k], 1) = WithRequired(m0, G, subs[k])
+                                 /\ (CheckSplit => /\ Traverse([MInit EXCEPT !.required = RootDeps(G)], G, subs[k], 1) = WithRequired(m0, G, subs[k])
                                                    /\ res[k].M = Must(G, subs[k])
                                                    /\ res[k].Y = May(G, subs[k]))
        /\ (Emit(g) => PrintT(<<"CASE", ToJson(Case(G, subs, res, nd, must1))>>))
